@@ -1,6 +1,7 @@
 package gen
 
 import (
+	"fmt"
 	"math/big"
 
 	"pgregory.net/rapid"
@@ -16,6 +17,11 @@ func Module(rt *rapid.T, cfg Cfg) (*am.Module, map[string]int) {
 	}
 	g.M = &am.Module{}
 	g.M.U = GenUniverse(rt, 3)
+	if cfg.Big {
+		for len(g.M.U.Defs) < 8 {
+			g.M.U.Defs = append(g.M.U.Defs, &am.TypeDef{Name: fmt.Sprintf("big.t%d", len(g.M.U.Defs)), Fields: []*am.Type{am.I(uint64(8 + len(g.M.U.Defs)))}})
+		}
+	}
 	for _, d := range g.M.U.Defs {
 		g.used[d.Name] = true
 	}
@@ -27,6 +33,9 @@ func Module(rt *rapid.T, cfg Cfg) (*am.Module, map[string]int) {
 		g.M.Funcs = append(g.M.Funcs, g.funcHeader())
 	}
 	ng := g.rng("nglobals", 0, g.cfg.MaxGlobals)
+	if g.cfg.Big {
+		ng = g.rng("nglobalsbig", 8, 11)
+	}
 	for i := 0; i < ng; i++ {
 		g.M.Globals = append(g.M.Globals, g.globalHeader())
 	}
@@ -69,6 +78,9 @@ func (g *G) header() {
 
 func (g *G) comdats() {
 	n := g.rng("ncomdats", 0, 2)
+	if g.cfg.Big {
+		n = g.rng("ncomdatsbig", 8, 10)
+	}
 	for i := 0; i < n; i++ {
 		g.M.Comdats = append(g.M.Comdats, &am.Comdat{Name: g.fresh("cd"), Kind: g.pick("cdkind", []string{"any", "exactmatch", "largest", "nodeduplicate", "samesize"})})
 	}
@@ -415,15 +427,16 @@ func (g *G) aliases() {
 
 func (g *G) attrGroups() {
 	n := g.rng("nattrgroups", 0, 2)
+	if g.cfg.Big {
+		n = g.rng("nattrgroupsbig", 8, 10)
+	}
 	for i := 0; i < n; i++ {
-		ag := &am.AttrGroup{ID: i * g.rng("agstride", 1, 3), Attrs: g.fnAttrsFor(true)}
+		ag := &am.AttrGroup{ID: 0, Attrs: g.fnAttrsFor(true)}
+		if len(g.M.AttrGroups) > 0 {
+			ag.ID = g.M.AttrGroups[len(g.M.AttrGroups)-1].ID + g.rng("agstride", 1, 3)
+		}
 		if len(ag.Attrs) == 0 {
 			ag.Attrs = []string{"nounwind"}
-		}
-		for _, prev := range g.M.AttrGroups {
-			if prev.ID == ag.ID {
-				ag.ID = prev.ID + 1
-			}
 		}
 		g.M.AttrGroups = append(g.M.AttrGroups, ag)
 	}
@@ -442,10 +455,13 @@ func (g *G) attrGroups() {
 
 // metadata adds simple generic metadata: tuples, strings, value-as-metadata, named metadata and attachments.
 func (g *G) metadata() {
-	if !g.chance("md", 1, 2) || g.off("metadata") {
+	if !g.cfg.Big && (!g.chance("md", 1, 2) || g.off("metadata")) {
 		return
 	}
 	n := g.rng("nmd", 1, 5)
+	if g.cfg.Big {
+		n = g.rng("nmdbig", 8, 12)
+	}
 	for i := 0; i < n; i++ {
 		node := &am.MDNode{ID: i, Distinct: g.chance("distinct", 1, 4)}
 		g.M.MDs = append(g.M.MDs, node)
@@ -487,6 +503,9 @@ func (g *G) metadata() {
 		}
 	}
 	nn := g.rng("nnamedmd", 0, 2)
+	if g.cfg.Big {
+		nn = g.rng("nnamedmdbig", 8, 10)
+	}
 	for i := 0; i < nn; i++ {
 		nm := &am.NamedMD{Name: g.pick("nmdname", []string{"my.md", "foo", "llvm.ident", "odd name", "x.9"}) + itoa(i)}
 		for k := g.rng("nnmdnodes", 0, 3); k > 0; k-- {
